@@ -72,6 +72,10 @@ def wire_of(data):
 def run_conversation(rec, case):
     rng = gen.mkrng('c09', case['seed'], case['i'])
     kind = rng.choice('TA')
+    if kind == 'A' and case.get('real'):
+        # the asyncio client over a REAL aiohttp.ClientSession
+        kind = 'R'
+        rec.count('conversations_over_real_aiohttp_session')
     transport = rng.choice(['polling', 'websocket', 'upgrade'])
     probe = rng.choice(['ok', 'ok', 'wrong', 'silent', 'refuse',
                         'upgrade-write-fails']) \
@@ -94,7 +98,7 @@ def run_conversation(rec, case):
             down0.append((i, data))
         script['open_extra'] = [wire_of(d) for i, d in down0]
         rec.count('handshake_extras')
-    plain = kind == 'A' and rng.random() < 0.3
+    plain = kind in 'AR' and rng.random() < 0.3
     legacy = rng.random() < 0.2
     extra = {}
     if rng.random() < 0.25:
@@ -109,7 +113,8 @@ def run_conversation(rec, case):
                        request_timeout=5, plain_handlers=plain,
                        legacy_disconnect=legacy, **extra)
     desc = 'client=%s%s%s%s transport=%s probe=%s extras=%d' % (
-        'Client' if kind == 'T' else 'AsyncClient',
+        'Client' if kind == 'T' else 'AsyncClient' if kind == 'A' else
+        'AsyncClient(real aiohttp session)',
         ' plain-handlers' if plain else '', ' legacy-disconnect' if legacy
         else '', ' %r' % extra if extra else '', transport, probe, len(down0))
     steps = []
@@ -146,6 +151,8 @@ def run_conversation(rec, case):
             return
         on_ws = transport == 'websocket' or (transport == 'upgrade' and
                                              probe == 'ok')
+        if kind == 'R':
+            w.quiesce()     # bytes written by the client are still in flight
         rec.count('upgrade_conduct')
         if c.c.transport() != ('websocket' if on_ws else 'polling'):
             V('upgrade-conduct-transport', 'client is on %r after probe=%s' %
@@ -314,7 +321,7 @@ def run_conversation(rec, case):
         if silent_at is not None:
             rec.count('silence_bound')
             srv.silent = True
-            bound = PI + PT + 5 + 0.001
+            bound = PI + PT + 5 + 0.001 + (1 if kind == 'R' else 0)
             last_rx = max([silent_at] + [0])
             w.run_until(lambda: any(e['ev'] == 'disconnect'
                                     for e in c.events), bound + 10)
@@ -481,7 +488,9 @@ def run_heartbeat(rec, case):
         silent_at = w.now
         srv.silent = True
         rec.count('silence_bound')
-        bound = pi + pt + 5 + 0.001
+        # (a real aiohttp session rounds time-outs of more than 5 s up to a
+        # whole second of loop time)
+        bound = pi + pt + 5 + 0.001 + (1 if kind == 'R' else 0)
         w.run_until(lambda: any(e['ev'] == 'disconnect' for e in c.events),
                     bound + 10)
         dis = [e for e in c.events if e['ev'] == 'disconnect']
@@ -516,11 +525,13 @@ def run_shard(spec):
     rec = Rec()
     cases = [{'seed': spec['seed'], 'i': spec['shard'] * 1000000 + k}
              for k in range(spec['n'])]
+    for c in cases[::2]:
+        c['real'] = True
     cases += [{'seed': spec['seed'], 'i': spec['shard'] * 1000000 + k,
                'url': True} for k in range(spec['nu'])]
     if spec['shard'] == 0:
         cases += [{'hb': list(hb), 'kind': k, 'transport': tr}
-                  for hb in HEARTBEATS for k in 'TA'
+                  for hb in HEARTBEATS for k in 'TAR'
                   for tr in ('polling', 'websocket')]
     scen.run_cases(rec, cases, dispatch)
     return rec.result()
